@@ -86,7 +86,7 @@ class Abort(BaseException):
     pass
 
 
-def _classify(sql: str) -> str | None:
+def _classify(sql: str, in_txn: bool = True) -> str | None:
     s = " ".join(sql.split())
     if s.startswith("SELECT * FROM stage_executions WHERE id = :id"):
         return "S"
@@ -96,6 +96,8 @@ def _classify(sql: str) -> str | None:
         return "U"
     if s.startswith("INSERT OR IGNORE INTO processed_messages") and getattr(_tl, "epilogue", False):
         return "E"
+    if not in_txn and s[:6].upper() in ("INSERT", "UPDATE", "DELETE"):
+        return "D"      # any other DML that opens a write transaction (needs SQLite's write lock); not an Occ event
     return None
 
 
@@ -103,7 +105,7 @@ class SchedConn(sqlite3.Connection):
     def execute(self, sql, *a):
         s, idx = _SCHED, getattr(_tl, "idx", None)
         if s is not None and idx is not None and getattr(_tl, "armed", False):
-            k = _classify(sql)
+            k = _classify(sql, self.in_transaction)
             if k is not None:
                 s.point(idx, k)
         return super().execute(sql, *a)
@@ -181,7 +183,7 @@ class Scheduler:
                     return
                 enabled = []
                 for i, k in sorted(self.waiting.items()):
-                    if k in ("U", "E"):
+                    if k in ("U", "E", "D"):
                         if any(j != i and c.in_transaction for j, c in self.conns.items()):
                             continue
                     enabled.append(i)
@@ -313,8 +315,120 @@ def _read_row(conn, sid):
     ctx = json.loads(r[2])
     log = list(ctx.get("log", [])) + [REF_TAG[x] for x in ctx.get("_completed_branches", [])] \
         + [int(d["signal_name"]) for d in ctx.get("_buffered_signals", [])]
-    return {"ver": r[0], "status": names.index(r[1]), "log": log,
-            "tasks": [[int(t[0][1:]), t[1], names.index(t[2])] for t in ts]}
+    row = {"ver": r[0], "status": names.index(r[1]), "log": log,
+           "tasks": [[int(t[0][1:]), t[1], names.index(t[2])] for t in ts]}
+    if "_signal_name" in ctx:
+        row["sig"] = ctx["_signal_name"]
+    return row
+
+
+def _read_msgs(conn) -> list:
+    return sorted(r[0] for r in conn.execute("SELECT message_type FROM queue_messages").fetchall())
+
+
+class RecTxn:
+    """observes AtomicTransaction.store_stage of a real handler (delegates everything)"""
+
+    def __init__(self, txn, i, sid, out):
+        self._t, self._i, self.stored, self._sid, self._out = txn, i, False, sid, out
+
+    def __getattr__(self, name):
+        return getattr(self._t, name)
+
+    def store_stage(self, stage, expected_phase=None):
+        if stage.id == self._sid:
+            self._out["bases"][self._i].append(stage.version)
+            self.stored = True
+        return self._t.store_stage(stage, expected_phase=expected_phase)
+
+class RecRepo:
+    """observes the store calls of a real handler: per-attempt base version and outcome"""
+
+    def __init__(self, store, sid, out, i):
+        self._store, self._sid, self._out, self._i = store, sid, out, i
+
+    def __getattr__(self, name):
+        return getattr(self._store, name)
+
+    def store_stage(self, stage, expected_phase=None):
+        from stabilize.errors import ConcurrencyError
+        mine = stage.id == self._sid
+        if mine:
+            self._out["bases"][self._i].append(stage.version)
+        try:
+            self._store.store_stage(stage, expected_phase=expected_phase)
+        except ConcurrencyError:
+            if mine:
+                self._out["results"][self._i].append("conc")
+            raise
+        if mine:
+            self._out["results"][self._i].append("ok")
+
+    def transaction(self, queue=None):
+        import contextlib
+        from stabilize.errors import ConcurrencyError
+        rec_i, store, sid, out = self._i, self._store, self._sid, self._out
+
+        @contextlib.contextmanager
+        def cm():
+            rec = None
+            try:
+                with store.transaction(queue) as txn:
+                    rec = RecTxn(txn, rec_i, sid, out)
+                    yield rec
+            except ConcurrencyError:
+                if rec is not None and rec.stored:
+                    out["results"][rec_i].append("conc")
+                raise
+            if rec is not None and rec.stored:
+                out["results"][rec_i].append("ok")
+        return cm()
+
+def engine_call(store, sid, out, i: int, w: dict):
+    """run the REAL handler code for worker i (its own retry loop included)"""
+    import logging
+    import resilient_circuit.retry as rr
+    rr.sleep = lambda s_: None                               # backoff delays are irrelevant under the scheduler
+    logging.getLogger("stabilize").setLevel(logging.CRITICAL + 1)
+    eng = w["engine"]
+    repo = RecRepo(store, sid, out, i)
+    if eng["kind"] == "join":
+        from stabilize.handlers.complete_stage.handler import CompleteStageHandler
+        h = CompleteStageHandler(queue=None, repository=repo)
+        return lambda: h._update_join_tracking(eng["_up"], [eng["_down"]])
+    from stabilize.queue.messages import CancelStage, SignalStage
+    wf_id = eng["_down"].execution.id
+    if eng["kind"] == "signal":
+        from stabilize.handlers.signal_stage import SignalStageHandler
+        h = SignalStageHandler(queue=None, repository=repo)
+        m = SignalStage(execution_type="PIPELINE", execution_id=wf_id, stage_id=sid,
+                        signal_name=str(eng["name"]), signal_data={"n": eng["name"]}, persistent=True)
+        m.message_id = "sig-%d" % i
+        return lambda: h.handle(m)
+    if eng["kind"] == "suspend":       # RunTaskHandler._process_result_safely with a SUSPENDED task result
+        from stabilize.handlers.run_task.handler import RunTaskHandler
+        from stabilize.queue.messages import RunTask
+        from stabilize.tasks.registry import TaskRegistry
+        from stabilize.tasks.result import TaskResult
+        h = RunTaskHandler(queue=None, repository=repo, task_registry=TaskRegistry())
+        m = RunTask(execution_type="PIPELINE", execution_id=wf_id, stage_id=sid, task_id=_tid(eng["task"]), task_type="shell")
+        m.message_id = "run-%d" % i
+        return lambda: h._process_result_safely(sid, _tid(eng["task"]), TaskResult.suspend(), m)
+    if eng["kind"] == "complete_task":
+        from stabilize.handlers.complete_task import CompleteTaskHandler
+        from stabilize.models.status import WorkflowStatus
+        from stabilize.queue.messages import CompleteTask
+        h = CompleteTaskHandler(queue=None, repository=repo)
+        m = CompleteTask(execution_type="PIPELINE", execution_id=wf_id, stage_id=sid, task_id=_tid(eng["task"]),
+                         status=WorkflowStatus.SUCCEEDED)
+        m.message_id = "ct-%d" % i
+        return lambda: h.handle(m)
+    from stabilize.handlers.cancel_stage import CancelStageHandler
+    h = CancelStageHandler(queue=None, repository=repo)
+    m = CancelStage(execution_type="PIPELINE", execution_id=wf_id, stage_id=sid)
+    m.message_id = "can-%d" % i
+    return lambda: h.handle(m)
+
 
 
 def real_run(spec: dict, chooser, base: Path) -> dict:
@@ -339,87 +453,6 @@ def real_run(spec: dict, chooser, base: Path) -> dict:
         sched = Scheduler(n, chooser)
         ready = threading.Barrier(n + 1)
 
-        class RecTxn:
-            """observes AtomicTransaction.store_stage of a real handler (delegates everything)"""
-
-            def __init__(self, txn, i):
-                self._t, self._i, self.stored = txn, i, False
-
-            def __getattr__(self, name):
-                return getattr(self._t, name)
-
-            def store_stage(self, stage, expected_phase=None):
-                if stage.id == sid:
-                    out["bases"][self._i].append(stage.version)
-                    self.stored = True
-                return self._t.store_stage(stage, expected_phase=expected_phase)
-
-        class RecRepo:
-            """observes the store calls of a real handler: per-attempt base version and outcome"""
-
-            def __init__(self, i):
-                self._i = i
-
-            def __getattr__(self, name):
-                return getattr(store, name)
-
-            def store_stage(self, stage, expected_phase=None):
-                mine = stage.id == sid
-                if mine:
-                    out["bases"][self._i].append(stage.version)
-                try:
-                    store.store_stage(stage, expected_phase=expected_phase)
-                except ConcurrencyError:
-                    if mine:
-                        out["results"][self._i].append("conc")
-                    raise
-                if mine:
-                    out["results"][self._i].append("ok")
-
-            def transaction(self, queue=None):
-                import contextlib
-                rec_i = self._i
-
-                @contextlib.contextmanager
-                def cm():
-                    rec = None
-                    try:
-                        with store.transaction(queue) as txn:
-                            rec = RecTxn(txn, rec_i)
-                            yield rec
-                    except ConcurrencyError:
-                        if rec is not None and rec.stored:
-                            out["results"][rec_i].append("conc")
-                        raise
-                    if rec is not None and rec.stored:
-                        out["results"][rec_i].append("ok")
-                return cm()
-
-        def engine_call(i: int, w: dict):
-            """run the REAL handler code for worker i (its own retry loop included)"""
-            import resilient_circuit.retry as rr
-            rr.sleep = lambda s_: None
-            eng = w["engine"]
-            repo = RecRepo(i)
-            if eng["kind"] == "join":
-                from stabilize.handlers.complete_stage.handler import CompleteStageHandler
-                h = CompleteStageHandler(queue=None, repository=repo)
-                return lambda: h._update_join_tracking(eng["_up"], [eng["_down"]])
-            from stabilize.queue.messages import CancelStage, SignalStage
-            wf_id = eng["_down"].execution.id
-            if eng["kind"] == "signal":
-                from stabilize.handlers.signal_stage import SignalStageHandler
-                h = SignalStageHandler(queue=None, repository=repo)
-                m = SignalStage(execution_type="PIPELINE", execution_id=wf_id, stage_id=sid,
-                                signal_name=str(eng["name"]), signal_data={"n": eng["name"]}, persistent=True)
-                m.message_id = "sig-%d" % i
-                return lambda: h.handle(m)
-            from stabilize.handlers.cancel_stage import CancelStageHandler
-            h = CancelStageHandler(queue=None, repository=repo)
-            m = CancelStage(execution_type="PIPELINE", execution_id=wf_id, stage_id=sid)
-            m.message_id = "can-%d" % i
-            return lambda: h.handle(m)
-
         def worker(i: int, w: dict):
             _tl.idx, _tl.armed, _tl.epilogue = i, False, False
             try:
@@ -429,7 +462,7 @@ def real_run(spec: dict, chooser, base: Path) -> dict:
                     w["engine"]["_down"] = store.retrieve_stage(sid)
                     if w["engine"]["kind"] == "join":
                         w["engine"]["_up"] = store.retrieve_stage(other_ids[w["engine"]["ref"]])
-                    call = engine_call(i, w)
+                    call = engine_call(store, sid, out, i, w)
                 ready.wait()
                 _tl.armed = True
                 if call is not None:
@@ -501,6 +534,7 @@ def real_run(spec: dict, chooser, base: Path) -> dict:
         out["error"] = sched.error
         out["history"] = history            # committed row before the first step and after every step
         out["final"] = _read_row(obs_conn, sid)
+        out["msgs"] = _read_msgs(obs_conn)
         out["other_unchanged"] = (_read_row(obs_conn, other_sid) == other0)
         out["open_txn_left"] = [i for i, c in sched.conns.items() if c.in_transaction]
         obs_conn.close()
@@ -522,6 +556,67 @@ def real_run(spec: dict, chooser, base: Path) -> dict:
 
 
 real_run.counter = 0
+
+
+def serial_run(spec: dict, order: list[int], base: Path) -> dict:
+    """The same REAL handler calls, one after the other in `order`, on a fresh copy: the sequential specification."""
+    lib.ensure_repo_on_path()
+    from stabilize.errors import ConcurrencyError
+    from stabilize.persistence.sqlite.store import SqliteWorkflowStore
+    key = json.dumps([spec["tasks"], spec["status0"], spec.get("join")])
+    tpl, sid, other_ids = _template(key, spec["tasks"], spec["status0"], base, spec.get("join"))
+    path = base / ("ser-%d-%d.db" % (os.getpid(), real_run.counter))
+    real_run.counter += 1
+    shutil.copyfile(tpl, path)
+    n = len(spec["workers"])
+    out: dict = {"results": [[] for _ in range(n)], "bases": [[] for _ in range(n)], "crash": [None] * n}
+    store = SqliteWorkflowStore(f"sqlite:///{path}")
+    try:
+        for i in order:
+            w = json.loads(json.dumps(spec["workers"][i]))
+            w["engine"]["_down"] = store.retrieve_stage(sid)
+            if w["engine"]["kind"] == "join":
+                w["engine"]["_up"] = store.retrieve_stage(other_ids[w["engine"]["ref"]])
+            try:
+                engine_call(store, sid, out, i, w)()
+            except ConcurrencyError:
+                pass
+        conn = store._get_connection()
+        return {"final": _read_row(conn, sid), "msgs": _read_msgs(conn)}
+    finally:
+        store.close()
+        for ext in ("", "-journal", "-wal", "-shm"):
+            try:
+                os.unlink(str(path) + ext)
+            except FileNotFoundError:
+                pass
+
+
+def serial_monitor(spec: dict, r: dict, base: Path, cache: dict) -> list[tuple[str, str]]:
+    """Monitor for pairs of real handlers whose writes depend on what they read (no fixed Occ program): the outcome
+    of the concurrent run must be the outcome of running the same handlers one after the other, in an order that
+    agrees with the order in which their saves were committed (no lost update, no half-applied update)."""
+    import itertools
+    bad = [b for b in monitors(spec, r) if b[0] in ("scheduler-error", "worker-crash", "double-success", "failed-write-visible",
+                                                     "version-decreased", "version-not-bumped", "open-transaction-left",
+                                                     "bystander-changed")]
+    if bad and bad[0][0] in ("scheduler-error", "worker-crash"):
+        return bad
+    n = len(spec["workers"])
+    commit_order = r.get("commit_order", [])
+    got = {"final": r["final"], "msgs": r["msgs"]}
+    cands = []
+    for perm in itertools.permutations(range(n)):
+        if [i for i in perm if i in commit_order] != commit_order:
+            continue
+        if perm not in cache:
+            cache[perm] = serial_run(spec, list(perm), base)
+        cands.append((perm, cache[perm]))
+        if cache[perm] == got:
+            return bad
+    bad.append(("not-serializable", "the concurrent run ended in %s; committed order %s; the serial executions consistent with it "
+                                    "end in %s" % (got, commit_order, [(p_, c) for p_, c in cands][:3])))
+    return bad
 
 
 # ---------------------------------------------------------------------------------------------------------
@@ -594,6 +689,10 @@ def _job(args):
             runs, complete = explore_all(spec, base, limit, root=args[4], branch_from=SPLIT_DEPTH)
         else:
             runs, complete = explore_random(spec, base, limit, seed), False
+        if spec.get("monitor_only"):
+            cache: dict = {}
+            for r in runs:
+                r["serial_bad"] = serial_monitor(spec, r, base, cache)
         return spec, runs, complete
     finally:
         global _TEMPLATES
@@ -834,6 +933,23 @@ def gen_engine_specs(ctx) -> list:
             "workers": [engine_worker("signal", tasks, 111), engine_worker("cancel", tasks), engine_worker("signal", tasks, 222)]}
     jobs.append(("split", spec, 100000, 0, "engine:signal-cancel-signal-all") if thorough
                 else ("random", spec, 90, rng.randrange(1 << 30), "engine:signal-cancel-signal"))
+    # pairs whose writes depend on what they read (conditional handlers): checked against serial execution of the
+    # same real handlers instead of an Occ program
+    def mo(kind, **kw):
+        return {"variant": "txn", "phase": ["none"], "mod": {"status": None, "tag": None, "set": [], "new": []}, "tries": 1,
+                "engine": dict(kind=kind, **kw)}
+    sus = names.index("SUSPENDED")
+    for fam, status0, tks, ws in (
+            ("engine:signal-vs-suspending-result", run_, tasks, [mo("signal", name=111), mo("suspend", task=1)]),
+            ("engine:signal-vs-suspending-result-2sig", run_, tasks, [mo("signal", name=111), mo("suspend", task=1), mo("signal", name=222)]),
+            ("engine:cancel-vs-complete-task", run_, tasks, [mo("cancel"), mo("complete_task", task=1)]),
+            ("engine:cancel-vs-complete-task-vs-signal", run_, tasks, [mo("cancel"), mo("complete_task", task=1), mo("signal", name=111)]),
+            ("engine:signal-on-suspended-vs-cancel", sus, [[1, sus], [2, ns]], [mo("signal", name=111), mo("cancel")])):
+        spec = {"tasks": tks, "status0": status0, "monitor_only": True, "workers": ws}
+        if len(ws) == 2:
+            jobs.append(("all", spec, 5000, 0, fam))
+        else:
+            jobs.append(("random", spec, 200 if thorough else 60, rng.randrange(1 << 30), fam))
     return jobs
 
 
@@ -979,6 +1095,7 @@ def run(ctx) -> RunResult:
     seen = set()
     nontrivial = 0
     c1_seen = 0
+    monitor_only_runs = 0
     for fam, kind, spec, runs, complete in results:
         dist["families"][fam] = dist["families"].get(fam, 0) + len(runs)
         if kind == "all":
@@ -987,6 +1104,13 @@ def run(ctx) -> RunResult:
             key = w["variant"] + "/" + w["phase"][0]
             dist["variants"][key] = dist["variants"].get(key, 0) + len(runs)
         for r in runs:
+            if spec.get("monitor_only"):
+                for sig, what in r.get("serial_bad", []):
+                    res.violations.append(_violation(spec, r, sig, what))
+                monitor_only_runs += 1
+                if any("conc" in x for x in r["results"]):
+                    nontrivial += 1
+                continue
             bad = monitors(spec, r)
             if fam.startswith("nonguarantee:"):
                 # documented non-guarantee (coq/props/C07.v, Part C1): only scheduler/crash problems count here
@@ -1036,7 +1160,8 @@ def run(ctx) -> RunResult:
             res.violations.append(Violation(
                 what="retry_on_concurrency_error does not raise ConcurrencyError after its budget is exhausted",
                 signature="retry-swallows", replay={"kind": "retry-probe", "calls": calls}))
-    res.evaluations = len(cases) + 1
+    res.extra["engine_pairs_checked_against_serial_execution"] = monitor_only_runs
+    res.evaluations = len(cases) + 1 + monitor_only_runs
     res.traces_validated = len(cases)
     res.distinct_nontrivial = nontrivial
     res.exhaustive = dist["truncated_specs"] == 0
@@ -1066,7 +1191,7 @@ def search(ctx, broken) -> list:
     jobs = [j for j in gen_specs(c2) if j[0] != "split"][:80]
     for fam, kind, spec, runs, _ in run_jobs([(j[0], j[1], min(j[2], 3000), j[3], j[4]) for j in jobs]):
         for r in runs:
-            for sig, what in monitors(spec, r):
+            for sig, what in (r.get("serial_bad", []) if spec.get("monitor_only") else monitors(spec, r)):
                 found.append(_violation(spec, r, sig, what))
                 if len(found) >= 5:
                     return found
@@ -1081,7 +1206,7 @@ def replay(obj) -> bool:
     base = lib.scratch_dir("c07r")
     try:
         out = real_run(r["spec"], _replay_chooser(r["choices"]), base)
-        bad = monitors(r["spec"], out)
+        bad = serial_monitor(r["spec"], out, base, {}) if r["spec"].get("monitor_only") else monitors(r["spec"], out)
         for sig, what in bad:
             print("  ", sig, ":", what[:300])
         return not bad
